@@ -227,6 +227,14 @@ theorem incMixed_exact (ib : Nat) (hib : 0 < ib) (S B : CType) (hS : 0 < S.bits)
   simp only
   rw [conv_of_inRange S hS (a + b) ⟨by have := S.minVal_nonpos; omega, h3⟩]
 
+/-- For promoted types (no narrower than `int`) `std::common_type<A,B>` is the type of `a + b`: the
+`static_assert(std::is_same<AB, decltype(a+b)>::value, "lossless assignment")` of the unsigned overload. -/
+theorem commonType_eq_uac_of_promoted (ib : Nat) (A B : CType) (hA : ib ≤ A.bits) :
+    commonType ib A B = uac ib A B := by
+  unfold commonType; split
+  · next e => subst e; unfold uac; rw [promote_of_ge ib A hA, uacP_self]
+  · rfl
+
 /-- The overload for two unsigned promoted types. -/
 theorem incUnsigned_exact (ib : Nat) (S B : CType) (hS : 0 < S.bits) (hB : 0 < B.bits)
     (hSi : ib ≤ S.bits) (hBi : ib ≤ B.bits) (uS : S.signed = false) (uB : B.signed = false) (a b : Int)
@@ -238,10 +246,7 @@ theorem incUnsigned_exact (ib : Nat) (S B : CType) (hS : 0 < S.bits) (hB : 0 < B
   have h1 : 0 ≤ b := by have := B.minVal_unsigned uB; unfold inRange at hb; omega
   have hu : (uac ib S B).signed = false := uac_unsigned ib S B (by rw [pS]; exact uS) (by rw [pB]; exact uB)
   -- the type of `sum` is the type of `a + b`
-  have eAB : commonType ib S B = uac ib S B := by
-    unfold commonType; split
-    · next e => subst e; unfold uac; rw [pS, uacP_self]
-    · rfl
+  have eAB : commonType ib S B = uac ib S B := commonType_eq_uac_of_promoted ib S B hSi
   have hT := uac_bits_pos ib S B hS hB
   have m1 := uac_maxVal_left ib S B hS hB
   have m2 := uac_maxVal_right ib S B hS hB
